@@ -157,6 +157,8 @@ func normTrace(lines []string) (trace []string, failed []string, panicked string
 			trace = append(trace, l)
 		case strings.HasPrefix(l, "PANIC"):
 			panicked = l
+		case strings.HasPrefix(l, "DIVERGED"):
+			trace = append(trace, l)
 		case strings.HasPrefix(l, "assume-false"):
 			trace = append(trace, "assume-false")
 		}
@@ -230,7 +232,7 @@ func confirmAndValidate(n *Native, res *HarnessResult, tier string, seed int64) 
 		// passing path: the native trace must equal the symbolic one and must not panic
 		want := strings.Join(r.pass.Trace, "|")
 		have := strings.Join(trace, "|")
-		if panicked == "" && want == have {
+		if panicked == "" && want == have && len(failed) == 0 {
 			res.TracesValidated++
 		} else {
 			res.TraceMismatches = append(res.TraceMismatches, fmt.Sprintf("witness=%s\n      symbolic: %s\n      native:   %s %s", witnessString(r.pass.Witness), want, have, panicked))
